@@ -132,12 +132,18 @@ def apply_op(obj, cls, p, v):
     return call(setattr, obj, p, v)[0]
 
 
+def _v(f, *a):
+    """value, or the exception kind as a string (a raising observation is an observation, not a harness failure)"""
+    st, r = call(f, *a)
+    return r if st == 'ok' else 'raised:' + st
+
+
 def observe(obj, cls, pts):
     """everything the property's observe_at list names, as plain python data"""
-    o = {'getters': {p: float(getattr(obj, p)) for p in PARAMS[cls]}}
+    o = {'getters': {p: _v(lambda p=p: float(getattr(obj, p))) for p in PARAMS[cls]}}
     if cls in PROFILES:
-        o['dens'] = [obj.get_energy_density(*p) for p in pts]
-        o['pol'] = [tuple(obj.get_polarization(*p)) for p in pts]
+        o['dens'] = [_v(obj.get_energy_density, *p) for p in pts]
+        o['pol'] = [_v(lambda p=p: tuple(obj.get_polarization(*p))) for p in pts]
         st, geom = call(obj.generate_geometry)
         if st == 'ok':
             segs = []
@@ -149,12 +155,26 @@ def observe(obj, cls, pts):
         else:
             o['geom'] = st
     else:
-        o['wavelengths'] = [float(x) for x in obj.wavelengths]
-        o['psd'] = [float(x) for x in obj.power_spectral_density]
-        o['delta'] = float(obj.delta_wavelength)
-        o['methods'] = {m: float(getattr(obj, m)()) for m in METHOD_GETTERS}
-        o['eval'] = [float(obj(x)) for x in spectrum_points(o['getters'])]
+        o['wavelengths'] = _v(lambda: [float(x) for x in obj.wavelengths])
+        o['psd'] = _v(lambda: [float(x) for x in obj.power_spectral_density])
+        o['delta'] = _v(lambda: float(obj.delta_wavelength))
+        o['methods'] = {m: _v(lambda m=m: float(getattr(obj, m)())) for m in METHOD_GETTERS}
+        g = o['getters']
+        o['eval'] = [_v(lambda x=x: float(obj(x))) for x in spectrum_points(g)] if not any(isinstance(v, str) for v in g.values()) else 'raised'
     return o
+
+
+def _broken_obs(o):
+    """an observation that raised somewhere"""
+    def bad(x):
+        if isinstance(x, str):
+            return x.startswith('raised')
+        if isinstance(x, dict):
+            return any(bad(v) for v in x.values())
+        if isinstance(x, (list, tuple)):
+            return any(bad(v) for v in x)
+        return False
+    return bad({k: v for k, v in o.items() if k != 'geom'})
 
 
 def spectrum_points(g):
@@ -164,6 +184,8 @@ def spectrum_points(g):
 
 def same_obs(a, b, cls):
     """first differing observable between two observation dicts, or None"""
+    if _broken_obs(a) or _broken_obs(b):
+        return None if a == b else 'raising-observation'
     for p in PARAMS[cls]:
         if a['getters'][p] != b['getters'][p]:
             return 'getter(%s)' % p
@@ -217,6 +239,8 @@ def obs_lines(cls, pts, getters):
 def compare_obs(cls, pts, ob, outs):
     """model output lines (for obs_lines) vs an implementation observation; returns first disagreement or None"""
     i = 0
+    if _broken_obs(ob):
+        return 'an observation of the implementation raised: %r' % ({k: v for k, v in ob.items() if k != 'geom'},)
 
     def flt(s):
         try:
@@ -444,8 +468,8 @@ def histories(ctx, st, record):
     for cls in PROFILES + SPECTRA:
         props = list(PARAMS[cls]) + (['polarization'] if cls in PROFILES else [])
         # all single setters, then all ordered pairs (quick) / triples (thorough) of setters
-        seqs = [(p,) for p in props] * 2
-        seqs += list(itertools.product(props, repeat=2))
+        seqs = [(p,) for p in props] * 3
+        seqs += list(itertools.product(props, repeat=2)) * (3 if depth == 2 else 6)
         if depth == 3:
             seqs += list(itertools.product(props, repeat=3))
         for seq in seqs:
@@ -461,7 +485,7 @@ def histories(ctx, st, record):
             run_history(ctx, st, cls, args, ops, gen_points(rng, cls, args), record, pol)
         ctx.count('sequences:' + cls, len(seqs))
         # longer random histories
-        for _ in range(ctx.n(6, 60)):
+        for _ in range(ctx.n(40, 300)):
             args = gen_args(rng, cls)
             state = dict(args)
             ops = []
@@ -478,12 +502,12 @@ def segments_stream(ctx, st, record):
     from cherab.core.model.laser.profile import generate_segmented_cylinder
     rng = ctx.rng
     cases = []
-    for _ in range(ctx.n(150, 2500)):
+    for _ in range(ctx.n(1500, 20000)):
         r = rng.choice([0.05, 0.5, 1.0, rng.uniform(1e-3, 2.0)])
         L = rng.choice([1.0, 0.04, 10.0, rng.uniform(1e-3, 20.0), r * rng.uniform(0.1, 6.0)])
         cases.append((r, L, 'random'))
     # exact stream: dyadic radius, length an exact multiple (or half multiple) of 2r, and lengths below 2r
-    for _ in range(ctx.n(80, 800)):
+    for _ in range(ctx.n(500, 5000)):
         r = 2.0 ** rng.randint(-6, 1)
         m = rng.choice([1, 2, 3, 4, 5, 8, 16, 31])
         L = rng.choice([2 * r * m, r * m, 2 * r * m + r / 2, r / 2, 2 * r, 4 * r])
@@ -521,7 +545,7 @@ def segments_stream(ctx, st, record):
 def spectra_stream(ctx, st, record):
     rng = ctx.rng
     C = classes()
-    for it in range(ctx.n(120, 1500)):
+    for it in range(ctx.n(600, 6000)):
         lo = rng.choice([1059.0, 1039.9, rng.uniform(200.0, 2000.0)])
         width = rng.choice([2.0, 0.2, 10.0, rng.uniform(0.01, 50.0)])
         hi = lo + width
@@ -587,7 +611,7 @@ def spectra_stream(ctx, st, record):
 def integrals(ctx):
     """S: cross-section / volume integrals of the real energy density"""
     rng = ctx.rng
-    for it in range(ctx.n(6, 40)):
+    for it in range(ctx.n(8, 150)):
         for cls in ('ConstantBivariateGaussian', 'GaussianBeamAxisymmetric', 'TrivariateGaussian'):
             args = gen_args(rng, cls)
             obj = construct(cls, args)
@@ -723,6 +747,77 @@ def explain_broken(ctx, exp):
             b['explained_by_known'] = True
 
 
+def t_phase(ctx):
+    """T: same bookkeeping as Ctx.lean_check, but one `lake build` for all seven theorem modules (a failing module does
+    not hide the others: lake keeps going and lists the failed targets) and one combined axiom audit of the modules
+    that built.  Each `#print axioms` line of the per-module audit files is one obligation."""
+    from harness.vlib import lean, core
+    from harness.vlib.util import LEAN
+    hits = lean.grep_forbidden()
+    if hits:
+        raise core.InfraError('forbidden token in Lean sources: ' + '; '.join(hits[:5]))
+    mods = [m for m, _, _ in MODULES]
+    ctx.checker_cmd = 'cd %s/lean && lake build %s && for f in %s; do lake env lean $f; done' % (
+        VERIF, ' '.join(mods), ' '.join(a for _, a, _ in MODULES))
+    ok, out = lean.lake_build(mods)
+    bad = {}
+    if not ok:
+        failed = set(re.findall(r'^- (Cherab\.[\w\.]+)\s*$', out, flags=re.M))
+        for m in mods:
+            if m in failed:
+                ol = out.splitlines()
+                errs = []
+                for i, l in enumerate(ol):
+                    if 'error' in l and m.replace('.', '/') + '.lean' in l:
+                        errs += ol[i:i + 4]
+                bad[m] = '\n'.join(errs)[-2000:] or 'build failed'
+        # modules that import a failed module are never started by lake: propagate along the import graph
+        changed = True
+        while changed:
+            changed = False
+            for m in mods:
+                if m in bad:
+                    continue
+                src = open(os.path.join(LEAN, m.replace('.', '/') + '.lean')).read()
+                dep = [d for d in re.findall(r'^import\s+(\S+)', src, flags=re.M) if d in bad]
+                if dep:
+                    bad[m] = 'imports ' + ', '.join(dep) + ' which does not build'
+                    changed = True
+        if not bad:               # could not attribute: fall back to building one by one
+            for m in mods:
+                o2, t2 = lean.lake_build([m])
+                if not o2:
+                    bad[m] = t2[-2000:]
+    for m, detail in bad.items():
+        ctx.broken.append(dict(kind='theorem', name=m, detail=detail))
+        ctx.log('LEAN BUILD FAILED', m)
+    good = [(m, a) for m, a, _ in MODULES if m not in bad]
+    work = os.path.join(VERIF, '.work')
+    os.makedirs(work, exist_ok=True)
+    comb = os.path.join(work, 'C18_audit_%d.lean' % os.getpid())
+    lines = ['import %s' % m for m, _ in good] + ['import Cherab.Props.C18Real',
+             'open Cherab.Props.C18 Cherab.Props.C18Real Cherab.Props.C18Table']
+    for m, a in good:
+        lines += ['#print axioms ' + t for t in lean.audit_targets(a)]
+    open(comb, 'w').write('\n'.join(lines) + '\n')
+    try:
+        aok, ax, raw = lean.audit(comb)
+    finally:
+        os.remove(comb)
+    for m, a, _ in MODULES:
+        for t in lean.audit_targets(a):
+            full = [k for k in ax if k == t or k.endswith('.' + t)]
+            if m not in bad and full:
+                extra = set(ax[full[0]]) - lean.ALLOWED_AXIOMS
+                if extra:
+                    raise core.InfraError('theorem %s depends on non-standard axioms %s' % (t, sorted(extra)))
+                ctx.obligations.append((t, True, ','.join(ax[full[0]]) or 'no axioms'))
+            else:
+                ctx.obligations.append((t, False, 'not checked'))
+                if m not in bad:
+                    ctx.broken.append(dict(kind='theorem', name=t, detail=raw[-1500:]))
+
+
 # ------------------------------------------------------------------------------------------------- entry
 def run_corpus(ctx):
     d = os.path.join(VERIF, 'corpus', 'C18')
@@ -800,11 +895,7 @@ def run(ctx):
         if tset.get(cls) != sorted(PARAMS[cls]):
             ctx.broke('correspondence', 'setter list of ' + cls, dict(translator=tset.get(cls), harness=sorted(PARAMS[cls])))
     # 2. T
-    cmds = []
-    for mod, audit, _ in MODULES:
-        ctx.lean_check([mod], audit)
-        cmds.append(ctx.checker_cmd)
-    ctx.checker_cmd = ' ; '.join(cmds)
+    t_phase(ctx)
     # 3./4. K and S
     run_corpus(ctx)
     st = Stream()
@@ -812,11 +903,14 @@ def run(ctx):
     exp = table_uncovered(table)
     ctx.extra['table_entries_failing_their_obligation'] = {k: ['%s.%s' % e for e in v] for k, v in exp.items()}
     erf_stream(ctx, st, record)
-    targeted(ctx, st, record, exp)
-    histories(ctx, st, record)
-    segments_stream(ctx, st, record)
-    spectra_stream(ctx, st, record)
-    integrals(ctx)
+    import traceback
+    for name, fn in (('targeted', lambda: targeted(ctx, st, record, exp)), ('histories', lambda: histories(ctx, st, record)),
+                     ('segments', lambda: segments_stream(ctx, st, record)), ('spectra', lambda: spectra_stream(ctx, st, record)),
+                     ('integrals', lambda: integrals(ctx))):
+        try:
+            fn()
+        except Exception:      # the implementation raised where the harness expects it to work: an observation, not an infrastructure error
+            ctx.broke('correspondence', 'C18 stream %s: the implementation raised unexpectedly' % name, traceback.format_exc()[-1500:])
     outs = ctx.driver(st.lines)
     ctx.traces = record['traces']
     for start, cnt, fn, name, detail in st.judges:
